@@ -11,7 +11,10 @@
 (* change, and source and mask are not written.                                              *)
 (* pres names the presentation of the source: 0 plain, 1 integer translation, 2 two          *)
 (* destination pixels per source pixel, 3 PAD repeat, 4 scale 1 + 1/65536, 5 a 1x1 image with *)
-(* NORMAL repeat (solid), 6 PAD repeat with scale 1 + 1/65536; mpres 1: a 1x1 repeating mask. *)
+(* NORMAL repeat (solid), 6 PAD repeat with scale 1 + 1/65536, 7 a solid-fill image whose     *)
+(* 16-bit a r g b are logged in src; mpres 1: a 1x1 repeating mask, 2: a solid-fill mask.      *)
+(* A solid-fill image counts as a narrow format for the choice of the class (pixman works on  *)
+(* its 8 most significant bits there); the real-valued equations use its true 16-bit value.   *)
 (* The source pixel that destination pixel i sees is SrcPos (the sampling rule itself is      *)
 (* property C08's).                                                                           *)
 EXTENDS Combine, TraceIO
@@ -25,17 +28,19 @@ SrcPos(ev, i) ==
     CASE ev.pres \in {0, 1, 4} -> ev.sx + i
       [] ev.pres = 2 -> (ev.sx + i) \div 2
       [] ev.pres \in {3, 6} -> ClampI(ev.sx + i, 0, ev.sw - 1)
-      [] ev.pres = 5 -> 0
+      [] ev.pres \in {5, 7} -> 0
 MskPos(ev, i) == IF ev.mpres = 1 THEN 0 ELSE ev.mx + i
 
 Mode(ev) == IF ev.hasmask = 0 THEN "none" ELSE IF ev.ca = 1 THEN "ca" ELSE "unified"
 
 NoMaskPx == [c \in Chan |-> CNone]
+Col16(buf) == <<buf[1] + 256 * buf[2], buf[3] + 256 * buf[4], buf[5] + 256 * buf[6], buf[7] + 256 * buf[8]>>
 
 PixelJudged(ev, fs, fm, fd, md, i) ==
     PixelOK(ev.op, md, fs, fm, fd,
-            PixelCV(fs, 0, ev.src, SrcPos(ev, i)),
-            IF ev.hasmask = 1 THEN PixelCV(fm, 0, ev.msk, MskPos(ev, i)) ELSE NoMaskPx,
+            IF ev.pres = 7 THEN SolidPixel(Col16(ev.src)) ELSE PixelCV(fs, 0, ev.src, SrcPos(ev, i)),
+            IF ev.hasmask = 0 THEN NoMaskPx
+            ELSE IF ev.mpres = 2 THEN SolidPixel(Col16(ev.msk)) ELSE PixelCV(fm, 0, ev.msk, MskPos(ev, i)),
             PixelCV(fd, 0, ev.before, ev.dx + i),
             PixelCV(fd, 0, ev.after, ev.dx + i))
 
@@ -50,7 +55,10 @@ TComp ==
     /\ l <= TraceLen /\ TraceLog[l].e = "Comp"
     /\ (TraceLog[l].fresh = 1 \/ TraceLog[l].before = dest)
     \* "= TRUE": evaluated as a plain expression (much faster than letting TLC walk it as an action)
-    /\ CompOK(TraceLog[l], Fmt(Code(TraceLog[l].sf)), Fmt(Code(TraceLog[l].mf)), Fmt(Code(TraceLog[l].df)), Mode(TraceLog[l])) = TRUE
+    /\ CompOK(TraceLog[l],
+              IF TraceLog[l].pres = 7 THEN A8R8G8B8 ELSE Fmt(Code(TraceLog[l].sf)),
+              IF TraceLog[l].mpres = 2 THEN A8R8G8B8 ELSE Fmt(Code(TraceLog[l].mf)),
+              Fmt(Code(TraceLog[l].df)), Mode(TraceLog[l])) = TRUE
     /\ dest' = TraceLog[l].after
     /\ l' = l + 1
 
